@@ -137,3 +137,17 @@ Example parsed_map_ex :
 Proof.
   split; [repeat constructor; lia|]. split; [repeat constructor; cbn; lia|]. vm_compute. reflexivity.
 Qed.
+(* sourcemap_text_parses: hypotheses hold for hostile strings (a quote, a control
+   character, an invalid byte, a two-byte character) and the text is the expected one *)
+From V Require C19.Json C19.JsonSpec C19.JsonProofs C07.SmJson C07.SmJsonProofs.
+Example sourcemap_text_ex :
+  let sources := [[97; 34; 46; 106; 115]] in
+  let contents := Some [[120; 10; 1; 255; 195; 169]] in
+  let mappings := [65; 65; 65; 65; 59; 65; 65; 67; 65] in
+  Forall JsonProofs.bytes_ok sources /\ Forall SmJsonProofs.safe_char mappings /\
+  JsonSpec.parse_json (SmJson.sourcemap_text true sources (Some [114]) contents mappings [[110]]) =
+    Some (SmJsonProofs.sm_jv sources (Some [114]) contents mappings [[110]]) /\
+  SmJsonProofs.jstrs [[120; 10; 1; 255; 195; 169]] = JsonSpec.JArr [JsonSpec.JStr [120; 10; 1; 65533; 233]].
+Proof.
+  split; [repeat constructor; lia|]. split; [repeat constructor; lia|]. split; vm_compute; reflexivity.
+Qed.
